@@ -12,6 +12,7 @@ import os
 import re
 from checklib import sh, parse_kv_line
 
+WIDE_VALID = "wide-valid:error-free"
 FEATURES = ["hiddenvis", "alias", "extra", "err", "missing", "multiline", "zerowidth"]
 
 
@@ -53,7 +54,7 @@ def run(ctx):
                         "and the parser shape invariant ShapeOK (checked on every real tree, reported as inv)"]
     ctx.regen()
     ctx.extra_lean_dirs = ["C10", "C09", "C13", "C01"]
-    ctx.prove(["TsVerif.C02.Props", "TsVerif.C02.EditProps", "TsVerif.C02.BalanceProps", "TsVerif.C02.BalanceSumm", "TsVerif.C02.WidthProps", "TsVerif.C02.LexYields", "TsVerif.C02.ModelDriver", "TsVerif.C02.Round11"], "TsVerif/C02/Audit.lean")
+    ctx.prove(["TsVerif.C02.Props", "TsVerif.C02.EditProps", "TsVerif.C02.BalanceProps", "TsVerif.C02.BalanceSumm", "TsVerif.C02.WidthProps", "TsVerif.C02.LexYields", "TsVerif.C02.ModelDriver", "TsVerif.C02.Round11", "TsVerif.C02.Round11b"], "TsVerif/C02/Audit.lean")
     driver = ctx.build_driver("tsv-c02")
     explorer = ctx.cargo_bin("c02")
     langdump = ctx.cunit("cunit_c02")
@@ -66,6 +67,7 @@ def run(ctx):
         spec = os.path.join(ctx.workdir, "spec.txt")
         open(spec, "w").write(rp["case"].get("spec", "") + "\n")
         cmd += ["--spec", spec]
+    wide_aborted = False
     rc, out = sh(cmd, env=ctx.env, timeout=3000)
     last = out.strip().split("\n")[-1] if out.strip() else "explorer silent"
     ctx.log(last)
@@ -76,8 +78,29 @@ def run(ctx):
             ctx.violation("judge", "termination: a parse did not return within %s s of wall-clock time (no progress callback reached): %s" % (m.group(1), spec[:200]),
                           {"spec": spec, "clause": "termination:timeout"},
                           fingerprint={"lang": spec.split(" ")[0], "clause": "termination:timeout"})
-        ctx.oblige("run:explorer", False, out[-800:])
-        return ctx.finish()
+        wb = re.findall(r"^c02wide: begin spec=(.*)$", out, re.M)
+        if ctx.replay and not m and rp["case"].get("clause") == "termination:abort":
+            wb = [rp["case"].get("spec", "")]
+        if wb and not m and "c02wide: done" not in out:
+            # the process died (signal / runtime assertion) inside a parse of a zoo/c02wide document: that document is the replay
+            spec = wb[-1].strip()
+            ctx.violation("judge", "termination: the parse of a zoo/c02wide document (> 300 symbols) aborted the process "
+                          "(rc %s; a runtime assertion or a crash): %s" % (rc, spec[:200]),
+                          {"spec": spec, "clause": "termination:abort", "explorer_tail": out[-600:]},
+                          fingerprint={"lang": "c02wide", "clause": "termination:abort"})
+            ctx.oblige("run:explorer", False, out[-800:])
+            # the explorer flushes before every c02wide case: keep the complete cases written before the abort and judge them too
+            data = open(ops, "rb").read() if os.path.exists(ops) else b""
+            cut = data.rfind(b"\nrun\n")
+            if ctx.replay or cut < 0:
+                return ctx.finish()
+            open(ops, "wb").write(data[:cut + 5])
+            wide_aborted = True
+        else:
+            ctx.oblige("run:explorer", False, out[-800:])
+            return ctx.finish()
+    force_wide_valid = bool(ctx.replay) and rp["case"].get("clause") == WIDE_VALID
+    wide = {"cases": 0, "valid_docs": 0, "valid_docs_error_free": 0, "literal_leaves": 0, "leaves": 0}
     specs = {}
     for line in open(ops, errors="replace"):
         if line.startswith("spec "):
@@ -182,6 +205,24 @@ def run(ctx):
             bom_langs.add(lang)
         if len(samples) < 6 and evals % 397 == 1:
             samples.append({"case": cid, "spec": spec[:200], "verdict": {"corr": corr[:80], "inv": inv, "judge": judge[:120]}, "stats": kv})
+        if lang == "c02wide":
+            wide["cases"] += 1
+            wide["leaves"] += int(kv.get("leaves", "0") or 0)
+            wide["literal_leaves"] += int(kv.get("literals", "0") or 0)
+            if kind == "wide-valid" or force_wide_valid:
+                # documents valid by construction (harness/src/bin/c02.rs:wide_docs) must parse without ERROR / MISSING
+                wide["valid_docs"] += 1
+                nerr, nmiss = int(kv.get("err", "0") or 0), int(kv.get("missing", "0") or 0)
+                if nerr == 0 and nmiss == 0 and int(kv.get("raw", "0") or 0) > 0:
+                    wide["valid_docs_error_free"] += 1
+                else:
+                    judge_bad += 1 if judge == "ok" else 0
+                    per_clause[WIDE_VALID] = per_clause.get(WIDE_VALID, 0) + 1
+                    if per_clause[WIDE_VALID] <= 3:
+                        ctx.violation("judge", "a document of zoo/c02wide that is valid by construction (every token id below and above 256) does not parse "
+                                      "error-free: %d ERROR, %d MISSING nodes, %s raw nodes" % (nerr, nmiss, kv.get("raw", "?")),
+                                      {"case": cid, "spec": spec, "clause": WIDE_VALID, "verdict": judge[:1500], "stats": kv},
+                                      fingerprint={"lang": lang, "clause": WIDE_VALID})
         if judge != "ok":
             judge_bad += 1
             for cl in clauses(judge):
@@ -239,7 +280,7 @@ def run(ctx):
                 "full internal dump + public-API walk; non-trivial := the tree has a hidden node with visible children, an alias, an extra, "
                 "an ERROR, a MISSING, a multi-line token or a zero-width token; distinct by hash of (language, text, edits)",
         "samples": samples, "kinds": kinds, "document_bytes": sizes, "trees_with_feature": feat, "node_totals": totals, "largest_visible_child_count": widest,
-        "explorer_summary": last,
+        "explorer_summary": last, "wide_symbol_grammar(zoo/c02wide, 361 symbols)": wide,
         "bom_prefixed_documents_with_a_token_on_row_0": {"documents": bom_docs, "languages": len(bom_langs)},
         "correspondence": {"compared": evals, "equal": evals - corr_bad, "inner_nodes_recomputed": totals["inner"]},
         "judge": {"evaluated": evals, "passed": evals - judge_bad},
@@ -255,6 +296,11 @@ def run(ctx):
         # seed-independent: corpus/c02.txt has documents with >= 65 536 flat children under one node
         ctx.oblige("generator:has-node-with->=65536-visible-children(cached counts beyond 16 bits, judged like every other tree)",
                    widest >= 65536, "largest cached visible_child_count in an explored tree: %d" % widest)
+        ctx.oblige("generator:zoo/c02wide(>300 symbols)-explored:valid documents with token ids on both sides of 256 parse error-free; "
+                   "literal leaves judged kind = covered text",
+                   wide["valid_docs"] >= 30 and wide["valid_docs"] == wide["valid_docs_error_free"] and wide["literal_leaves"] >= 700,
+                   "%d cases, %d valid-by-construction documents (%d error-free), %d literal leaves of %d leaves"
+                   % (wide["cases"], wide["valid_docs"], wide["valid_docs_error_free"], wide["literal_leaves"], wide["leaves"]))
         ctx.oblige("generator:BOM-prefixed-documents-with-a-token-on-row-0-for->=20-languages(UTF-8 EF BB BF; C02 drives UTF-8 only)",
                    len(bom_langs) >= 20, "%d documents, %d languages" % (bom_docs, len(bom_langs)))
     return ctx.finish()
